@@ -49,6 +49,10 @@ pub struct ChainParams {
     pub issued_capacity_ckb: u64,
     pub halving_interval: Option<u64>,
     pub compact_target: Option<u32>,
+    /// initial primary / secondary epoch reward in CKB (None: the spec's defaults); tiny values
+    /// make the finalised reward too small to fund a cell, so cellbases must stay empty
+    pub primary_epoch_reward_ckb: Option<u64>,
+    pub secondary_epoch_reward_ckb: Option<u64>,
 }
 
 impl Default for ChainParams {
@@ -71,6 +75,8 @@ impl Default for ChainParams {
             issued_capacity_ckb: 100_000,
             halving_interval: None,
             compact_target: None,
+            primary_epoch_reward_ckb: None,
+            secondary_epoch_reward_ckb: None,
         }
     }
 }
@@ -163,6 +169,12 @@ pub fn build(p: &ChainParams) -> GenesisInfo {
     spec.params.primary_epoch_reward_halving_interval = p
         .halving_interval
         .or(spec.params.primary_epoch_reward_halving_interval);
+    if let Some(c) = p.primary_epoch_reward_ckb {
+        spec.params.initial_primary_epoch_reward = Some(ckb_types::core::Capacity::bytes(c as usize).expect("capacity"));
+    }
+    if let Some(c) = p.secondary_epoch_reward_ckb {
+        spec.params.secondary_epoch_reward = Some(ckb_types::core::Capacity::bytes(c as usize).expect("capacity"));
+    }
     spec.params.cellbase_maturity = Some(
         EpochNumberWithFraction::new(p.maturity.0, p.maturity.1, p.maturity.2).full_value(),
     );
